@@ -32,7 +32,8 @@ CONSTANTS Script,     \* <<[kind, a], ...>>: the requests of the scenario, start
           Delay,      \* TaskEnqueueDelay
           Known,      \* names of known findings (deviations of the code that are accepted and reported)
           F1Fixed,    \* FALSE: CreateCallback / CreateSubscription as they were before fix 75c0784
-          Parties     \* how many of the requests / sweeps of the scenario take part in one behaviour
+          Parties,    \* how many of the requests / sweeps of the scenario take part in one behaviour
+          Idc         \* id -> its sequence of characters (search patterns; TLC has no substring operations on strings)
 
 VARIABLES db, now, co, started, nsweeps, hist, last, sel
 vars == <<db, now, co, started, nsweeps, hist, last, sel>>
@@ -219,6 +220,25 @@ RunHeartbeatTasks(c, t) ==
   CASE c.ph = "start" -> Yield(c, "beat", <<[k |-> "HeartbeatTasks", pid |-> c.a.pid, time |-> t]>>, t)
     [] c.ph = "beat" -> Reply(c, [status |-> OK, n |-> Rows(c, 1)])
 
+\* searchPromises.go: one search; every hit that is pending past its deadline is timed out by a child
+\* coroutine (completePromise) of its own; when there was any, the search is taken again
+SearchCmd(a) == [k |-> "SearchPromises", a |-> a]
+RunSearchPromises(c, t) ==
+  CASE c.ph = "start" -> Yield(c, "search", <<SearchCmd(c.a)>>, t)
+    [] c.ph = "search" ->
+         LET recs == c.res[1].recs
+             late == SelectSeq(recs, LAMBDA p : p.state = PENDING /\ p.timeout <= t)
+         IN IF late # <<>> THEN [c EXCEPT !.ph = "await", !.sub = "children", !.tx = <<>>, !.ready = FALSE, !.x = late, !.ct = t]
+            ELSE Reply(c, [status |-> OK, promises |-> recs,
+                           cursor |-> IF Len(recs) = c.a.limit THEN Some(recs[Len(recs)].id) ELSE None])
+    [] c.ph = "await" -> Yield(c, "search", <<SearchCmd(c.a)>>, t)
+\* searchSchedules.go: one read
+RunSearchSchedules(c, t) ==
+  CASE c.ph = "start" -> Yield(c, "search", <<[k |-> "SearchSchedules", a |-> c.a]>>, t)
+    [] c.ph = "search" ->
+         LET recs == c.res[1].recs IN
+         Reply(c, [status |-> OK, schedules |-> recs, cursor |-> IF Len(recs) = c.a.limit THEN Some(recs[Len(recs)].id) ELSE None])
+
 \* acquireLock.go, releaseLock.go, heartbeatLocks.go: one guarded command each
 RunAcquireLock(c, t) ==
   LET a == c.a IN
@@ -347,6 +367,8 @@ RunProgram(c, t) ==
     [] c.kind = "ClaimTask" -> RunClaimTask(c, t)
     [] c.kind = "CompleteTask" -> RunCompleteTask(c, t)
     [] c.kind = "HeartbeatTasks" -> RunHeartbeatTasks(c, t)
+    [] c.kind = "SearchPromises" -> RunSearchPromises(c, t)
+    [] c.kind = "SearchSchedules" -> RunSearchSchedules(c, t)
     [] c.kind = "AcquireLock" -> RunAcquireLock(c, t)
     [] c.kind = "ReleaseLock" -> RunReleaseLock(c, t)
     [] c.kind = "HeartbeatLocks" -> RunHeartbeatLocks(c, t)
@@ -357,11 +379,11 @@ RunProgram(c, t) ==
     [] c.kind = "SchedulePromises" -> RunSchedulePromises(c, t)
     [] c.kind = "ScheduleChild" -> RunScheduleChild(c, t)
     [] c.kind = "TimeoutPromises" -> RunTimeoutPromises(c, t)
-    [] c.kind = "TimeoutChild" -> RunTimeoutChild(c, t)
+    [] c.kind \in {"TimeoutChild", "SearchChild"} -> RunTimeoutChild(c, t)
     [] c.kind = "TimeoutTasks" -> RunTimeoutTasks(c, t)
     [] c.kind = "EnqueueTasks" -> RunEnqueueTasks(c, t)
 Run(c, t) ==
-  IF c.err THEN (IF c.kind \in {"TimeoutPromises", "TimeoutChild", "TimeoutTasks", "EnqueueTasks", "TimeoutLocks", "SchedulePromises", "ScheduleChild"} THEN Finish(c)
+  IF c.err THEN (IF c.kind \in {"TimeoutPromises", "TimeoutChild", "SearchChild", "TimeoutTasks", "EnqueueTasks", "TimeoutLocks", "SchedulePromises", "ScheduleChild"} THEN Finish(c)
                  ELSE Reply(c, [status |-> STORE_ERROR]))
   ELSE RunProgram(c, t)
 
@@ -373,6 +395,10 @@ Run(c, t) ==
 ResultOf(S, cmd) ==
   CASE cmd.k = "ReadPromises" ->
          LET ids == SetToSeq(DuePromises(S, cmd.time)) IN [rows |-> Len(ids), recs |-> [i \in DOMAIN ids |-> WithId(ids[i], S.promises[ids[i]])]]
+    [] cmd.k = "SearchPromises" ->
+         LET ids == SearchPromisesIds(S, cmd.a, Idc) IN [rows |-> Len(ids), recs |-> [i \in DOMAIN ids |-> PBody(S, ids[i])]]
+    [] cmd.k = "SearchSchedules" ->
+         LET ids == SearchSchedulesIds(S, cmd.a, Idc) IN [rows |-> Len(ids), recs |-> [i \in DOMAIN ids |-> SBody(S, ids[i])]]
     [] cmd.k = "ReadSchedules" ->
          LET ids == SetToSeq(DueSchedules(S, cmd.time)) IN [rows |-> Len(ids), recs |-> [i \in DOMAIN ids |-> WithId(ids[i], S.schedules[ids[i]])]]
     [] cmd.k = "ReadTasks" ->
@@ -384,15 +410,24 @@ ResultOf(S, cmd) ==
     [] OTHER -> Res(S, cmd)
 RECURSIVE TxResults(_, _)
 TxResults(S, cmds) == IF cmds = <<>> THEN <<>> ELSE <<ResultOf(S, Head(cmds))>> \o TxResults(Apply(S, Head(cmds)), Tail(cmds))
-IsReadOnly(cmds) == \A i \in DOMAIN cmds : cmds[i].k \in {"ReadPromise", "ReadTask", "ReadPromises", "ReadTasks", "ReadEnqueueableTasks", "ReadSchedule", "ReadSchedules", "ReadLock"}
+IsReadOnly(cmds) == \A i \in DOMAIN cmds : cmds[i].k \in {"ReadPromise", "ReadTask", "ReadPromises", "ReadTasks", "ReadEnqueueableTasks", "ReadSchedule", "ReadSchedules", "ReadLock", "SearchPromises", "SearchSchedules"}
 
 (***************************************************************************)
 (* Level A's demands on one commit / one reply.                            *)
 (***************************************************************************)
 RequestKinds == {"ReadPromise", "CreatePromise", "CreatePromiseAndTask", "CompletePromise", "CreateCallback", "CreateSubscription",
                  "ClaimTask", "CompleteTask", "HeartbeatTasks", "AcquireLock", "ReleaseLock", "HeartbeatLocks",
-                 "CreateSchedule", "ReadSchedule", "DeleteSchedule"}
-OpAt(c, S) == IF c.kind = "CreatePromiseAndTask" THEN OpCreatePromiseAndTask2(S, c.a, c.dt, c.t0) ELSE Op(c.kind, S, c.a, c.dt)
+                 "CreateSchedule", "ReadSchedule", "DeleteSchedule", "SearchPromises", "SearchSchedules"}
+\* (a search is a read: its answer is the page of the query on the state it saw, provided no hit was overdue)
+SearchOp(c, S, t) ==
+  IF c.kind = "SearchPromises"
+  THEN [db |-> S, res |-> IF SearchOverdueHits(S, c.a, Idc, t) = {} THEN SearchPromisesRes(S, c.a, Idc) ELSE [status |-> -1]]
+  ELSE LET ids == SearchSchedulesIds(S, c.a, Idc) IN
+       [db |-> S, res |-> [status |-> OK, schedules |-> [i \in DOMAIN ids |-> SBody(S, ids[i])],
+                           cursor |-> IF Len(ids) = c.a.limit THEN Some(ids[Len(ids)]) ELSE None]]
+OpAt(c, S) == IF c.kind = "CreatePromiseAndTask" THEN OpCreatePromiseAndTask2(S, c.a, c.dt, c.t0)
+              ELSE IF c.kind \in {"SearchPromises", "SearchSchedules"} THEN SearchOp(c, S, c.dt)
+              ELSE Op(c.kind, S, c.a, c.dt)
 
 \* F14: a completion that lost the race (UpdatePromise affects no row) still completes the tasks
 IsF14(S, cmds) ==
@@ -407,7 +442,7 @@ SameAs(c, S2, S3) == IF c.kind = "ClaimTask" THEN NormA(S2) = NormA(S3) ELSE S2 
 CommitAllowed(c, S, S2) ==
   \/ S2 = S
   \/ c.kind \in RequestKinds /\ SameAs(c, S2, OpAt(c, S).db)
-  \/ c.kind = "TimeoutChild" /\ S2 = TimeoutP(S, c.p[1].id, c.dt)
+  \/ c.kind \in {"TimeoutChild", "SearchChild"} /\ S2 = TimeoutP(S, c.p[1].id, c.dt)
   \/ c.kind = "TimeoutLocks" /\ S2 = SweepLocks(S, c.dt)
   \* a schedule fires: its promise (unless it exists) and the advance in one step; when the schedule was deleted or
   \* re-created meanwhile the advance is refused and only the promise is created (an "orphan firing", accepted)
@@ -427,6 +462,7 @@ ReplyAllowed(c) ==
   ELSE LET r == Core(c, The(c.reply)) IN
        IF r.status = STORE_ERROR THEN TRUE          \* a failed request may or may not have taken effect
        ELSE IF IsSome(c.eff) THEN r = The(c.eff)
+       ELSE IF c.kind \in {"SearchPromises", "SearchSchedules"} THEN \E s \in c.snaps : SearchOp(c, s.S, now).res = r
        ELSE \/ \E s \in c.snaps : LET o == Op(c.kind, s.S, c.a, s.dt) IN o.db = s.S /\ Core(c, o.res) = r
             \/ c.snaps = {} /\ LET o == Op(c.kind, db, c.a, now) IN o.db = db /\ Core(c, o.res) = r
 
@@ -480,7 +516,7 @@ Commit(id) ==
                                            !.eff = IF isEffect THEN Some(Core(c, OpAt(c, db).res)) ELSE @]]
      /\ last' = [e |-> "commit", c |-> id, ok |-> CommitAllowed(c, db, S2),
                  f14 |-> IsF14(db, c.tx) /\ S2 # db]
-  /\ Note([e |-> "commit", c |-> id, p |-> IF co[id].kind \in {"TimeoutChild", "ScheduleChild"} THEN co[id].p[1].id ELSE ""])
+  /\ Note([e |-> "commit", c |-> id, p |-> IF co[id].kind \in {"TimeoutChild", "ScheduleChild", "SearchChild"} THEN co[id].p[1].id ELSE ""])
   /\ UNCHANGED <<now, started, nsweeps, sel>>
 
 \* the router answers (routing itself is C19's business: here it follows the tag)
@@ -500,14 +536,23 @@ Send(id, outcomes) ==
   /\ UNCHANGED <<db, now, started, nsweeps, sel>>
 
 \* the completion is delivered and the coroutine runs up to its next yield
+\* (a search that awaits its children goes on in the very resume in which the last of them finishes)
+OthersDone(parent, child) == \A x \in DOMAIN co : (co[x].own = parent /\ x # parent /\ x # child) => co[x].ph = "done"
 Resume(id) ==
   /\ id \in DOMAIN co /\ co[id].ready
   /\ LET c == Run(co[id], now)
-         kids == IF co[id].kind \in {"TimeoutPromises", "SchedulePromises"} /\ co[id].ph = "read" /\ ~ co[id].err THEN co[id].res[1].recs ELSE <<>>
-         kid(i) == Run([NoCo EXCEPT !.own = id, !.kind = IF co[id].kind = "TimeoutPromises" THEN "TimeoutChild" ELSE "ScheduleChild",
+         kids == IF co[id].kind \in {"TimeoutPromises", "SchedulePromises"} /\ co[id].ph = "read" /\ ~ co[id].err THEN co[id].res[1].recs
+                 ELSE IF co[id].kind = "SearchPromises" /\ co[id].ph = "search" /\ ~ co[id].err /\ c.ph = "await" THEN c.x
+                 ELSE <<>>
+         kid(i) == Run([NoCo EXCEPT !.own = id, !.kind = CASE co[id].kind = "TimeoutPromises" -> "TimeoutChild"
+                                                          [] co[id].kind = "SchedulePromises" -> "ScheduleChild"
+                                                          [] OTHER -> "SearchChild",
                                     !.ph = "start", !.p = <<kids[i]>>, !.ct = now], now)
+         par == co[id].own
+         wakes == co[id].kind = "SearchChild" /\ c.ph = "done" /\ co[par].sub = "children" /\ OthersDone(par, id)
      IN co' = [x \in (DOMAIN co) \cup {id \o "." \o kids[i].id : i \in DOMAIN kids} |->
                  IF x = id THEN c
+                 ELSE IF wakes /\ x = par THEN Run(co[par], now)
                  ELSE IF x \in DOMAIN co THEN co[x]
                  ELSE kid(CHOOSE i \in DOMAIN kids : x = id \o "." \o kids[i].id)]
   /\ Note([e |-> "resume", c |-> id]) /\ last' = [e |-> "resume", c |-> id, rok |-> ReplyAllowed(Run(co[id], now))]
@@ -534,6 +579,7 @@ AllStarted == \A i \in DOMAIN Script : Rid(i) \in sel => i \in started
 TypeOK == WellFormed(db)
 \* reachability probes (expected to be VIOLATED: used to see that a scenario exercises what it is for)
 Probe_ScheduleFired == ~ \E id \in DOMAIN co : co[id].kind = "ScheduleChild" /\ co[id].ph = "done" /\ DOMAIN db.promises # {}
+Probe_SearchTimedOut == ~ \E id \in DOMAIN co : co[id].kind = "SearchChild" /\ co[id].ph = "done"
 Probe_LockSwept == ~ (last.e = "commit" /\ \E id \in DOMAIN co : co[id].kind = "TimeoutLocks" /\ co[id].ph = "sweep" /\ co[id].ready /\ co[id].res[1].rows > 0)
 View == <<db, now, co, started, nsweeps, last, sel>>
 
